@@ -78,7 +78,11 @@ for _k, m in enumerate(order):
         elif FORM == "stmt":
             exec("import chartparse." + m, {})
         elif FORM == "from":
-            exec("from chartparse import " + m, {})
+            _ns = {}
+            exec("from chartparse import " + m, _ns)
+            if _ns.get(m) is not sys.modules.get("chartparse." + m) or not isinstance(_ns.get(m), types.ModuleType):
+                # the statement went through but the name is bound to something that is not the package's module of that name
+                raise ImportError("BoundToOtherObject")
         elif FORM == "dunder":
             __import__("chartparse." + m, fromlist=["*"])
         elif FORM == "star":
